@@ -1,9 +1,59 @@
-/- Line-protocol driver stub: answers every request line with "unimplemented". -/
-partial def loop (h : IO.FS.Stream) (out : IO.FS.Stream) : IO Unit := do
+/-
+  Line-protocol driver of the UCI `position` model (Model/UciPosition.lean).  Core-only.
+
+    keys <hex>…          hand over the real Zobrist tables                         → ok
+    reset                a fresh driver: current board = StartPos()                → ok
+    pos <hex> <hex> …    `handlePosition` on the byte-string arguments (each argument hex-encoded;
+                         `pos` alone = no arguments)                               → FEN of the board
+    three                `Threefold()` of the current board                        → n
+    umv <hex>            `parseUCIMove` on the current board                       → move word | err
+-/
+import ChessVerif.Model.UciPosition
+
+open ChessVerif
+
+structure DS where
+  keysArr : Array BB := #[]
+  board : Board := Board.empty
+
+def hexVal (c : Char) : Nat :=
+  if '0' ≤ c ∧ c ≤ '9' then c.toNat - 48
+  else if 'a' ≤ c ∧ c ≤ 'f' then c.toNat - 87
+  else if 'A' ≤ c ∧ c ≤ 'F' then c.toNat - 55 else 0
+
+def parseHex (s : String) : Nat := s.foldl (fun acc c => acc * 16 + hexVal c) 0
+
+def mkKeys (a : Array BB) : Keys :=
+  { piece := fun c p s => a.getD (c * 448 + p * 64 + s) 0,
+    stm := a.getD 896 0,
+    castling := fun i => a.getD (897 + i) 0,
+    epFile := fun i => a.getD (901 + i) 0 }
+
+def hexBytes (s : String) : Array UInt8 :=
+  let cs := s.toList.toArray
+  (Array.range (cs.size / 2)).map fun i => UInt8.ofNat (hexVal cs[2*i]! * 16 + hexVal cs[2*i+1]!)
+
+def step (st : DS) (line : String) : DS × String :=
+  let K := mkKeys st.keysArr
+  match line.splitOn " " with
+  | "keys" :: rest => ({ st with keysArr := (rest.map fun s => BitVec.ofNat 64 (parseHex s)).toArray }, "ok")
+  | ["reset"] => ({ st with board := UciPosition.startPos K }, "ok")
+  | "pos" :: rest =>
+    let nb := UciPosition.handlePosition K st.board (rest.map hexBytes)
+    ({ st with board := nb }, Fen.printFEN nb)
+  | ["three"] => (st, toString st.board.threefold)
+  | ["umv", h] =>
+    (st, match UciPosition.parseUCIMove st.board (hexBytes h) with
+         | some m => toString m
+         | none => "err")
+  | _ => (st, "bad-op")
+
+partial def loop (h out : IO.FS.Stream) (st : DS) : IO Unit := do
   let line ← h.getLine
   if line.isEmpty then return ()
-  out.putStrLn "unimplemented"
+  let (st', ans) := step st (line.dropRightWhile (fun c => c == '\n' || c == '\r'))
+  out.putStrLn ans
   out.flush
-  loop h out
+  loop h out st'
 
-def main : IO Unit := do loop (← IO.getStdin) (← IO.getStdout)
+def main : IO Unit := do loop (← IO.getStdin) (← IO.getStdout) {}
